@@ -35,6 +35,11 @@ def PairSet():
     return Ty("pairset", "bool", 2)
 
 
+def IntDict(elem):
+    """a dict from integer ids to numbers (domain array + value array)"""
+    return Ty("intdict", elem.kind, 1)
+
+
 def RowDict(elem, width):
     """a dict from integer ids to fixed-width lists of numbers (e.g. points[elem] = [sum, count])"""
     t = Ty("rowdict", elem.kind, 2)
